@@ -242,7 +242,8 @@ class Worker:
         if rc == -signal.SIGABRT or any("LLVM ERROR" in l for l in lines):
             # the verifier prints its complaints (unindented lines) before "LLVM ERROR: Broken ... found";
             # the first complaint identifies the defect better than the generic last line
-            msgs = [l for l in llvm if not l.startswith(" ") and "LLVM ERROR" not in l]
+            msgs = [l for l in llvm if not l.startswith(" ") and "LLVM ERROR" not in l
+                    and not l.startswith("warning: Linking two modules of different target triples")]
             last = next((l for l in reversed(llvm) if "LLVM ERROR" in l), None)
             if last is not None and "LLVM ERROR" in last:
                 last = last[last.index("LLVM ERROR"):]
